@@ -236,7 +236,8 @@ def run(tier, pid):
             tlc.require_ok(r, "lifecycle " + cfg)
             tlc.require_coverage(
                 r,
-                ["StartTest", "DecoratedSkip", "EnterUnit", "Step", "EndUnit", "PopCleanup", "SysCleanup", "ForceFail", "Report", "StopTest", "Rerun"],
+                ["StartTest", "EnterUnit", "Step", "EndUnit", "PopCleanup", "SysCleanup", "ForceFail", "Report", "StopTest", "Rerun"]
+                + ([] if cfg == "rt_mc_x.cfg" else ["DecoratedSkip"]),
                 cfg,
             )
         rep.add_tlc(r, cfg)
